@@ -126,6 +126,121 @@ def history (s : Store) (serial : Nat) (dflt : Int) (current : Snap) : List ((Na
     | some o => fromDb ++ [((current.cycle, current.node), o.2.getD dflt)]
     | none => fromDb
 
+/-! ### parameter datasets: which parameters a snapshot stores, and histories over selected steps × parameters
+
+`Database._writeParams` writes one dataset per parameter definition returned by
+`ParameterDefinitionCollection.toWriteToDB()`: the definitions whose CLASS-LEVEL `assigned` flag is set, i.e. the
+parameters that were assigned on SOME object of that type at some time in the process. A parameter nobody has
+assigned yet has no dataset in that snapshot. `Database.getHistories(comps, params, timeSteps)` must nevertheless
+report it for that step — with the default, which is what loading the snapshot yields.
+One object type (one `h5GroupForType`) is modelled; the types are handled by independent loop iterations. -/
+
+/-- the parameter side of the process state for one object type: the parameter ids whose class-level `assigned`
+flag is set, the values of the (object serial number, parameter id) pairs that were assigned, and the clock -/
+structure PState where
+  assigned : List Nat
+  live : List ((Nat × Nat) × Int)
+  cycle : Nat
+  node : Nat
+  deriving DecidableEq, Repr, Inhabited
+
+/-- `c.p[param]` / `c.p.get(param, default)`: the value, or the parameter's default if unset on that object -/
+def PState.get (st : PState) (dflt : Nat → Int) (sn p : Nat) : Int := (st.live.lookup (sn, p)).getD (dflt p)
+
+/-- the parameter setter (`paramSetter`): `self.assigned = SINCE_ANYTHING` on the DEFINITION, then the value on the object -/
+def PState.assign (st : PState) (sn p : Nat) (v : Int) : PState :=
+  { st with assigned := if st.assigned.contains p then st.assigned else st.assigned ++ [p],
+            live := ((sn, p), v) :: st.live }
+
+/-- one snapshot of the type: `layout.serialNum` of its objects (row order) and one dataset per stored parameter -/
+structure PSnap where
+  cycle : Nat
+  node : Nat
+  layout : List Nat
+  data : List (Nat × List Int)
+  deriving DecidableEq, Repr, Inhabited
+
+/-- `_writeParams`: `for paramDef in c.p.paramDefs.toWriteToDB(): temp = [c.p.get(paramDef.name, paramDef.default) for c in comps]` -/
+def writeP (st : PState) (dflt : Nat → Int) (layout : List Nat) : PSnap :=
+  { cycle := st.cycle, node := st.node, layout := layout,
+    data := st.assigned.map (fun p => (p, layout.map (fun sn => st.get dflt sn p))) }
+
+/-- `histData[c]`: parameter id ↦ OrderedDict (cycle, node) ↦ value (a `defaultdict(OrderedDict)`) -/
+abbrev Hist := List (Nat × List ((Nat × Nat) × Int))
+
+/-- `histData[c][paramName][cycle, timeNode] = val` -/
+def setHist (h : Hist) (p : Nat) (k : Nat × Nat) (v : Int) : Hist :=
+  if h.any (fun e => e.1 == p) then h.map (fun e => if e.1 == p then (p, odSet e.2 k v) else e)
+  else h ++ [(p, odSet [] k v)]
+
+/-- the value `getHistories` takes for row `idx` of parameter `p` in a group:
+`elif paramName in h5GroupForType: data = dataSet[indexInData]` else "Nothing in the database, so use the default value" -/
+def storedValue (g : PSnap) (idx p : Nat) (dflt : Nat → Int) : Int :=
+  match g.data.lookup p with
+  | some ds => ds.getD idx (dflt p)
+  | none => dflt p
+
+/-- the loop `for h5TimeNodeGroup in self.genTimeStepGroups(timeSteps)` of `Database.getHistories` for ONE object
+(found in each layout by its serial number) and explicit `timeSteps` / `params`; `none` = KeyError
+(`self.h5db[getH5GroupName(*step)]` for a step that was never written) -/
+def histLoop (groups : List PSnap) (serial : Nat) (params : List Nat) (dflt : Nat → Int) :
+    List (Nat × Nat) → Hist → Option Hist
+  | [], acc => some acc
+  | step :: rest, acc =>
+    match groups.find? (fun g => (g.cycle, g.node) == step) with
+    | none => none
+    | some g =>
+      match g.layout.idxOf? serial with
+      | none => histLoop groups serial params dflt rest acc           -- `if not indexInData: continue`
+      | some idx =>
+        histLoop groups serial params dflt rest
+          (params.foldl (fun a p => setHist a p (g.cycle, g.node) (storedValue g idx p dflt)) acc)
+
+/-- the tail of `getHistories`: `if cycleNode not in hist: hist[cycleNode] = c.p[paramName]` for every parameter that has a history -/
+def addLive (st : PState) (dflt : Nat → Int) (serial : Nat) (h : Hist) : Hist :=
+  h.map (fun e => if e.2.any (fun x => x.1 == (st.cycle, st.node)) then e
+                  else (e.1, e.2 ++ [((st.cycle, st.node), st.get dflt serial e.1)]))
+
+/-- `Database.getHistory(comp, params, timeSteps)` = `getHistories([comp], params, timeSteps)[comp]` -/
+def dbHistory (groups : List PSnap) (st : PState) (dflt : Nat → Int) (serial : Nat) (params : List Nat)
+    (steps : List (Nat × Nat)) : Option Hist :=
+  (histLoop groups serial params dflt steps []).map (addLive st dflt serial)
+
+/-- `DatabaseInterface.getHistory(comp, params, timeSteps)`: the current step is taken out of the request
+(`timeSteps.remove(now)`: the first occurrence), the database is asked for the rest, then
+`history[param][now] = comp.p[param]` for every requested parameter -/
+def dbiHistory (groups : List PSnap) (st : PState) (dflt : Nat → Int) (serial : Nat) (params : List Nat)
+    (steps : List (Nat × Nat)) : Option Hist :=
+  let now := (st.cycle, st.node)
+  if steps.contains now then
+    (dbHistory groups st dflt serial params (steps.erase now)).map
+      (fun h => params.foldl (fun a p => setHist a p now (st.get dflt serial p)) h)
+  else dbHistory groups st dflt serial params steps
+
+/-- `genTimeStepGroups(None)`: all time-step groups in the order of their names — for cycle and node numbers below
+100 (two digits each) the chronological order of the steps (`name_order_iff` in Props/C06) -/
+def allSteps (groups : List PSnap) : List (Nat × Nat) :=
+  isort (fun a b => decide (a.1 < b.1) || (a.1 == b.1 && decide (a.2 ≤ b.2))) (groups.map (fun g => (g.cycle, g.node)))
+
+/-- `Database.getHistory(comp, params)` with `timeSteps=None`: the full history -/
+def dbHistoryAll (groups : List PSnap) (st : PState) (dflt : Nat → Int) (serial : Nat) (params : List Nat) : Option Hist :=
+  dbHistory groups st dflt serial params (allSteps groups)
+
+/-- `DatabaseInterface.getHistory(comp, params)` with `timeSteps=None`: `nowRequested = True`, the database is asked for
+everything, then `history[param][now] = comp.p[param]` (in place if the current step is stored) -/
+def dbiHistoryAll (groups : List PSnap) (st : PState) (dflt : Nat → Int) (serial : Nat) (params : List Nat) : Option Hist :=
+  (dbHistoryAll groups st dflt serial params).map
+    (fun h => params.foldl (fun a p => setHist a p (st.cycle, st.node) (st.get dflt serial p)) h)
+
+/-- `HistoryTrackerInterface.getBlockHistoryVal(name, paramName, ts)` without preloaded values: the live value if
+`ts` is the current step and the database has no data for it, else `getHistory(block, [paramName], [ts])[paramName][ts]`
+(`none` = KeyError) -/
+def blockHistoryVal (groups : List PSnap) (st : PState) (dflt : Nat → Int) (serial p : Nat) (ts : Nat × Nat) : Option Int :=
+  if ts == (st.cycle, st.node) && !(groups.any (fun g => (g.cycle, g.node) == ts)) then some (st.get dflt serial p)
+  else match dbHistory groups st dflt serial [p] [ts] with
+    | none => none
+    | some h => ((h.lookup p).getD []).lookup ts
+
 /-- Python tuple comparison `(cyc, tn) >= (startCycle, startNode)` -/
 def atOrAfter (cn : Nat × Nat) (startCycle startNode : Nat) : Bool :=
   decide (startCycle < cn.1) || (cn.1 == startCycle && decide (startNode ≤ cn.2))
@@ -205,6 +320,15 @@ structure DbCfg where
   cfg : Config
   opener : Nat
   stateAt : Nat → Objs        -- the followed state when the i-th hook call of the run starts
+  /-- the database as the opening hook leaves it: fresh (`DatabaseInterface.initDB`), or — in a restart run, where
+  `MainInterface.interactBOL` calls `initDB()` and then `prepRestartRun()` — with the history merged from the
+  reload database (`restartStore`) -/
+  opened : Store := openW
+
+/-- `DatabaseInterface.prepRestartRun()` on the freshly opened database: `self._db.mergeHistory(inputDB, startCycle, startNode)`
+(a refused merge leaves what `initDB` made) -/
+def restartStore (src : Store) (startCycle startNode : Nat) : Store :=
+  (mergeHistory openW src startCycle startNode).getD openW
 
 /-- is this hook call a write of the current node by the database interface?
 (`interactEveryNode` unless tight coupling is on; `writeDBEveryNode` from `_performTightCoupling`) -/
@@ -222,8 +346,8 @@ def dbStep (d : DbCfg) (st : Option Store) (ie : Event × Nat) : Option Store :=
   let snap : Snap := { cycle := e.rc, node := e.rn, objs := d.stateAt ie.2 }
   match st with
   | none =>
-    if isOpenEvent d e then some openW
-    else if e.hook == .BOL && e.iface == d.cfg.dbName then some openW   -- `if not self._db: self.initDB()`
+    if isOpenEvent d e then some d.opened
+    else if e.hook == .BOL && e.iface == d.cfg.dbName then some d.opened   -- `if not self._db: self.initDB()`
     else none
   | some s =>
     if !s.isOpen then some s
